@@ -177,13 +177,7 @@ type patText struct {
 		Nodes []op   `json:"nodes"`
 		Pos   string `json:"pos"`
 	} `json:"named"`
-	Sites struct {
-		Global op   `json:"global"`
-		Func   op   `json:"func"`
-		Inst   op   `json:"inst"`
-		Term   op   `json:"term"`
-		Args   []op `json:"args"`
-	} `json:"sites"`
+	Sites obsSites `json:"sites"`
 }
 
 type pattern struct {
@@ -202,12 +196,23 @@ type obsNamed struct {
 	Name  string `json:"name"`
 	Nodes []op   `json:"nodes"`
 }
+
+// att is one attachment: its name and its node.
+type att struct {
+	Name string `json:"name"`
+	Node op     `json:"node"`
+}
+
+// obsSites: per attachment position the attachments in order (global = first global, decl =
+// first declaration that is not an intrinsic, func = first definition, inst = its first
+// instruction, term = the terminator of its last block), and the metadata call arguments.
 type obsSites struct {
-	Global op   `json:"global"`
-	Func   op   `json:"func"`
-	Inst   op   `json:"inst"`
-	Term   op   `json:"term"`
-	Args   []op `json:"args"`
+	Global []att `json:"global"`
+	Decl   []att `json:"decl"`
+	Func   []att `json:"func"`
+	Inst   []att `json:"inst"`
+	Term   []att `json:"term"`
+	Args   []op  `json:"args"`
 }
 type observation struct {
 	Defs  []obsDef   `json:"defs"`
@@ -270,14 +275,22 @@ func render(t patText, sp int) string {
 		zd, zr = "00", "0"
 	}
 	var sb strings.Builder
-	fmt.Fprintf(&sb, "@g = global i32 0, !foo %s\n\n", renderOp(t.Sites.Global, zr))
+	atts := func(as []att, sep string) string {
+		var x strings.Builder
+		for _, a := range as {
+			fmt.Fprintf(&x, "%s!%s %s", sep, a.Name, renderOp(a.Node, zr))
+		}
+		return x.String()
+	}
+	fmt.Fprintf(&sb, "@g = global i32 0%s\n\n", atts(t.Sites.Global, ", "))
+	fmt.Fprintf(&sb, "declare%s void @d()\n\n", atts(t.Sites.Decl, " "))
 	sb.WriteString("declare i1 @llvm.type.test(i8*, metadata)\n\n")
-	fmt.Fprintf(&sb, "define void @f() !bar %s {\n", renderOp(t.Sites.Func, zr))
-	fmt.Fprintf(&sb, "  %%1 = add i32 1, 2, !foo %s\n", renderOp(t.Sites.Inst, zr))
+	fmt.Fprintf(&sb, "define void @f()%s {\n", atts(t.Sites.Func, " "))
+	fmt.Fprintf(&sb, "  %%1 = add i32 1, 2%s\n", atts(t.Sites.Inst, ", "))
 	for i, a := range t.Sites.Args {
 		fmt.Fprintf(&sb, "  %%%d = call i1 @llvm.type.test(i8* null, metadata %s)\n", i+2, renderOp(a, zr))
 	}
-	fmt.Fprintf(&sb, "  ret void, !foo %s\n}\n\n", renderOp(t.Sites.Term, zr))
+	fmt.Fprintf(&sb, "  ret void%s\n}\n\n", atts(t.Sites.Term, ", "))
 	named := func(pos string) {
 		for _, n := range t.Named {
 			if n.Pos != pos {
@@ -498,7 +511,7 @@ func histWords(v irVector) string {
 }
 
 func patName(p map[string]interface{}) string {
-	return fmt.Sprintf("graph(n=%v shape=%v sparse=%v perm=%v distinct-mode=%v inline-mode=%v named-mode=%v spelling=%v)", p["n"], p["shape"], p["sparse"], p["perm"], p["dm"], p["inl"], p["nv"], p["sp"])
+	return fmt.Sprintf("graph(n=%v shape=%v sparse=%v perm=%v distinct-mode=%v inline-mode=%v named-mode=%v spelling=%v attachments=%v)", p["n"], p["shape"], p["sparse"], p["perm"], p["dm"], p["inl"], p["nv"], p["sp"], p["ac"])
 }
 
 func idsClass(ids []int64) string {
